@@ -30,11 +30,14 @@ def reverse_dfs_recursive(state: int, reversed_transitions: dict, reaching_state
             rec_reaching_states: the list of states that reach the input state (or a final state)
     """
     rec_reaching_states = reaching_states.copy()
-    rec_reaching_states.append(state)
-    for next_state in reversed_transitions[state]:
-        if next_state not in reaching_states:
-            rec_reaching_states = reverse_dfs_recursive(
-                next_state, reversed_transitions, rec_reaching_states)
+    pending_states = [state]
+    while pending_states:
+        current_state = pending_states.pop()
+        if current_state not in rec_reaching_states:
+            rec_reaching_states.append(current_state)
+            for next_state in reversed_transitions[current_state]:
+                if next_state not in rec_reaching_states:
+                    pending_states.append(next_state)
     return rec_reaching_states
 
 
